@@ -193,6 +193,23 @@ class Interp:
         self._atomic_cache[c.id] = r
         return r
 
+    def atomic_function(self, f: FuncInfo) -> bool:
+        """The same for a later module-level helper / method that loops until a condition holds (`_uniquify_name(name, taken)`): its
+        call stays one term, ('call', ('name', <name>) | ('attr', recv, <name>), args, kwargs)."""
+        key = ("fn", f.qualname)
+        if key not in self._atomic_cache:
+            self._atomic_cache[key] = any(isinstance(n, ast.While) for n in walk_no_nested(f.node))
+        return self._atomic_cache[key]
+
+    def resolve_function(self, fterm: Term) -> Optional[FuncInfo]:
+        """the package function a callee term names, seen from the analysed function (None for anything else)"""
+        dummy = ast.Call(func=ast.Name(id="<post-hoc>", ctx=ast.Load()), args=[], keywords=[], lineno=0, col_offset=0)
+        try:
+            tgt, _self = self._resolve(dummy, fterm, self.top)
+        except Exception:
+            return None
+        return tgt
+
     def _event(self, kind, term, value, st: _State, node, frame: Frame) -> Event:
         self._seq += 1
         e = Event(self._seq, kind, term, value, st.conds, st.loops, node, frame.qual, self._call_depth)
@@ -1024,7 +1041,7 @@ class Interp:
         if simple and frame.func is not None and self._call_depth < self.MAX_DEPTH:
             tgt, self_term = self._resolve(n, f, frame)
             if tgt is not None and tgt.qualname not in self._stack and self.inline(tgt) \
-                    and not isinstance(tgt.node, ast.Lambda) and not _is_generator(tgt.node):
+                    and not isinstance(tgt.node, ast.Lambda) and not _is_generator(tgt.node) and not self.atomic_function(tgt):
                 given_args = ((self_term,) + args) if self_term is not None else args
                 r = self._inline(tgt.node, None, self._module_defaults(tgt), tgt, given_args, kwargs, st, n, tgt)
                 if r is not None:
